@@ -15,7 +15,7 @@ import (
 // "false"), so that naming, ledger, verdicts and evidence are uniform.
 
 func init() {
-	extraPasses = append(extraPasses, sweepPass, effectsPass, goroutinePass, disciplinePass, refinementPass)
+	extraPasses = append(extraPasses, sweepPass, effectsPass, goroutinePass, disciplinePass, refinementPass, lemmaPass)
 }
 
 func passInst(fr *FuncResult, prog *Program, fn string, kind, anchor string, props []string, clause string, ok bool, pos token.Pos) {
@@ -966,5 +966,61 @@ func refinementPass(prog *Program, cs *Contracts, prop string) []*FuncResult {
 			_ = abstraction
 		}
 	}
+	return []*FuncResult{fr}
+}
+
+// lemmaPass discharges the contract file's closed lemmas (kind "lemma") for
+// the property: formulas over mathematical integers that carry a property
+// from the one-step postcondition a function proves to the many-step
+// statement the property makes. Induction itself is the usual schema: a lemma
+// named X_base and one named X_step together stand for "for all k >= 0".
+func lemmaPass(prog *Program, cs *Contracts, prop string) []*FuncResult {
+	var todo []*Clause
+	for _, l := range cs.Lemmas {
+		if contains(l.Props, prop) {
+			todo = append(todo, l)
+		}
+	}
+	if len(todo) == 0 {
+		return nil
+	}
+	var host *ssa.Function
+	for _, n := range []string{"inSlice", "toProto", "fromProto"} {
+		if f := prog.Funcs[n]; f != nil {
+			host = f
+			break
+		}
+	}
+	if host == nil {
+		for _, f := range prog.Funcs {
+			host = f
+			break
+		}
+	}
+	e := newExec(prog, cs, host)
+	e.fname = "lemma"
+	e.fc = nil
+	st := &State{cells: map[string]Val{}, snaps: map[string]map[string]string{}, heap: map[string]string{}, old: map[string]string{}, impure: map[string]bool{}, ghost: map[string]Val{},
+		calls: map[string]callRecord{}, counts: map[string]int{}, front: map[string][2]string{}, everHeld: map[string]bool{}, casWon: map[string]bool{}}
+	fr := &FuncResult{Name: "pass:lemma"}
+	for i, l := range todo {
+		name := l.Label
+		if name == "" {
+			name = fmt.Sprintf("lemma#%d", i+1)
+		}
+		g, err := e.evalBool(&evalCtx{st: st}, l.Expr)
+		if err != nil {
+			g = "false"
+			contractErrors = append(contractErrors, fmt.Sprintf("contract error: lemma %s line %d: %v", name, l.Line, err))
+		}
+		fr.Insts = append(fr.Insts, &Instance{Name: "lemma/" + name, Kind: "lemma", Func: "pass:lemma", Props: l.Props, Clause: "lemma " + l.Text, Goal: g})
+	}
+	for _, n := range e.declOrder {
+		fr.Decls = append(fr.Decls, fmt.Sprintf("(declare-fun %s () %s)", n, e.decls[n]))
+	}
+	for _, n := range e.funOrder {
+		fr.Decls = append(fr.Decls, e.funs[n])
+	}
+	fr.Axioms = e.axioms
 	return []*FuncResult{fr}
 }
